@@ -163,12 +163,14 @@ func enterBlock(pred, succ *ssa.BasicBlock, st nilState) nilState {
 			}
 		}
 	}
+	enterCells(succ, idx, st, ns)
 	return ns
 }
 
 // feasibleSuccs lists the successors of blk that the state allows, with the state refined by the branch taken.
 // refineAll: record branch knowledge about every tested value (otherwise only about values that feed a phi).
 func feasibleSuccs(blk *ssa.BasicBlock, st nilState, refineAll bool) []psItem {
+	st = transferCells(blk, st)
 	all := func() []psItem {
 		out := make([]psItem, 0, len(blk.Succs))
 		for _, s := range blk.Succs {
@@ -323,7 +325,7 @@ func exploreCond(start []psItem, cut map[Edge]bool, condCut func(e Edge, st nilS
 			if cut[Edge{it.blk, n.blk}] {
 				continue
 			}
-			if condCut != nil && !plain && condCut(Edge{it.blk, n.blk}, it.st) {
+			if condCut != nil && !plain && condCut(Edge{it.blk, n.blk}, n.st) {
 				continue
 			}
 			st := n.st
